@@ -278,7 +278,7 @@ func (m *Machine) visitInstr(fr *frame, instr ssa.Instruction) continuation {
 	case *ssa.If:
 		cv := fr.get(instr.Cond)
 		if t, ok := cv.(*Term); ok && !t.IsConst() {
-			if _, kn := m.known[t]; !kn && m.tryMerge(fr, t) {
+			if _, kn := m.known[t]; !kn && (m.tryMerge(fr, t) || m.tryMergeRegion(fr, t)) {
 				return kJump
 			}
 		}
@@ -636,6 +636,135 @@ func (m *Machine) tryMerge(fr *frame, c *Term) bool {
 	fr.skipPhis = true
 	m.merges++
 	return true
+}
+
+// tryMergeRegion generalises tryMerge to a small tree of pure blocks below a symbolic branch whose
+// leaves all jump to one join block (if / else-if chains such as a min/max update, nested conditional
+// expressions): the join's phis become nested ite terms and no path is forked.
+func (m *Machine) tryMergeRegion(fr *frame, c *Term) bool {
+	b := fr.block
+	var J *ssa.BasicBlock
+	blocks := 0
+	var explore func(blk *ssa.BasicBlock) bool
+	explore = func(blk *ssa.BasicBlock) bool {
+		if len(blk.Preds) != 1 {
+			if J == nil {
+				J = blk
+			}
+			return J == blk
+		}
+		blocks++
+		if blocks > 8 {
+			return false
+		}
+		switch blk.Instrs[len(blk.Instrs)-1].(type) {
+		case *ssa.Jump:
+			return explore(blk.Succs[0])
+		case *ssa.If:
+			return explore(blk.Succs[0]) && explore(blk.Succs[1])
+		}
+		return false
+	}
+	if b.Succs[0] == b.Succs[1] || !explore(b.Succs[0]) || !explore(b.Succs[1]) || J == nil || J == b {
+		return false
+	}
+	var phis []*ssa.Phi
+	for _, in := range J.Instrs {
+		if p, ok := in.(*ssa.Phi); ok {
+			phis = append(phis, p)
+		} else {
+			break
+		}
+	}
+	var lastPred *ssa.BasicBlock
+	// eval returns the values the join's phis take when control enters blk from pred
+	var eval func(pred, blk *ssa.BasicBlock) ([]value, bool)
+	eval = func(pred, blk *ssa.BasicBlock) ([]value, bool) {
+		if blk == J {
+			idx := -1
+			for i, p := range J.Preds {
+				if p == pred {
+					if idx >= 0 {
+						return nil, false // both edges of one If lead to the join
+					}
+					idx = i
+				}
+			}
+			if idx < 0 {
+				return nil, false
+			}
+			lastPred = pred
+			out := make([]value, len(phis))
+			for k, p := range phis {
+				out[k] = fr.get(p.Edges[idx])
+			}
+			return out, true
+		}
+		if !m.speculate(fr, blk) {
+			return nil, false
+		}
+		switch last := blk.Instrs[len(blk.Instrs)-1].(type) {
+		case *ssa.Jump:
+			return eval(blk, blk.Succs[0])
+		case *ssa.If:
+			cv := fr.get(last.Cond)
+			ct, sym := cv.(*Term)
+			if !sym || ct.IsConst() {
+				if m.truth(cv) {
+					return eval(blk, blk.Succs[0])
+				}
+				return eval(blk, blk.Succs[1])
+			}
+			vT, ok := eval(blk, blk.Succs[0])
+			if !ok {
+				return nil, false
+			}
+			vF, ok := eval(blk, blk.Succs[1])
+			if !ok {
+				return nil, false
+			}
+			return m.mergePhiValues(ct, vT, vF, phis)
+		}
+		return nil, false
+	}
+	vT, ok := eval(b, b.Succs[0])
+	if !ok {
+		return false
+	}
+	vF, ok := eval(b, b.Succs[1])
+	if !ok {
+		return false
+	}
+	merged, ok := m.mergePhiValues(c, vT, vF, phis)
+	if !ok {
+		return false
+	}
+	for k, p := range phis {
+		fr.set(p, merged[k])
+	}
+	fr.prevBlock, fr.block = lastPred, J
+	fr.skipPhis = true
+	m.merges++
+	return true
+}
+
+func (m *Machine) mergePhiValues(c *Term, vT, vF []value, phis []*ssa.Phi) ([]value, bool) {
+	out := make([]value, len(phis))
+	for k, p := range phis {
+		if !scalarValue(vT[k]) || !scalarValue(vF[k]) {
+			if sameRef(vT[k], vF[k]) {
+				out[k] = vT[k]
+				continue
+			}
+			return nil, false
+		}
+		tT, tF := m.toTerm(vT[k]), m.toTerm(vF[k])
+		if tT.Sort != tF.Sort {
+			return nil, false
+		}
+		out[k] = m.fromTerm(m.ts.Ite(c, tT, tF), p.Type())
+	}
+	return out, true
 }
 
 func sameRef(a, b value) bool {
